@@ -134,6 +134,15 @@ def build_case(seed_cid, big=False):
                     lines.append("incl %s %s" % (hx(fname), hx(text)))
                 text = 'include "%s"\n' % fname
             pieces.append((ns, text))
+    if len(nss) > 1 and rng.random() < 0.6:
+        # interleave the namespaces (A, B, A, ...): a namespace may be re-opened after another one was used;
+        # the order of the pieces of one namespace is kept
+        queues = {ns: [p for p in pieces if p[0] == ns] for ns in nss}
+        merged = []
+        while any(queues.values()):
+            ns = rng.choice([n for n in nss if queues[n]])
+            merged.append(queues[ns].pop(0))
+        pieces = merged
     emit_compile("cut", pieces, "cut", None)
     # 5. company added afterwards: a new namespace with colliding strings and a global rule *there*
     extra = []
